@@ -344,8 +344,8 @@ ADDED7 = {
 
 ADDED8 = {
     'C01': ' D14: the operand loop of _dis evaluated on every immediate kind x (w8, se) combination of the live cells x both operand sizes x boundary byte patterns: bytes consumed, width and value (sign- / zero-extended) of the immediate operand are the architectural ones; D3 decides the byte counts under operand size x address size and the moffs operand by the same evaluation (the statement-fragment evaluations were retired).',
-    'C02': ' D16: a segment override in SIZE PTR seg:[..] is dropped only when every encoding of the address has that segment as its default (p_ptrformula_2 evaluated on segment x address shape, ebp / esp as base, as scaled index, beside another unscaled register).',
-    'C03': ' D14: the size _dis gives the memory operand of every /digit row is accepted by check_size_modif for the modifiers of the same row (both evaluated; 185 row variants).',
+    'C02': ' D16: a segment override in SIZE PTR seg:[..] is dropped only when every encoding of the address has that segment as its default (p_ptrformula_2 evaluated on segment x address shape, ebp / esp as base, as scaled index, beside another unscaled register). D17: the fsub / fsubr, fdiv / fdivr exchange of AT&T syntax (att_bug_fsub_fdiv evaluated on 8 mnemonics x 7 operand lists): exchanged for the popping forms and for a destination %st(i), i != 0, only.',
+    'C03': ' D15: the operand-size vote of asm_candidates on the renderings of canonical bytes (shared with C02.D14). D14: the size _dis gives the memory operand of every /digit row is accepted by check_size_modif for the modifiers of the same row (both evaluated; 185 row variants).',
     'C04': ' D12 also evaluates shld / shrd with one register named twice.',
     'C06': ' D16: mpool / eval_abs interpreted from their source (with the node classes and the simplifier) on 30 instruction histories - cells read at their own width, narrower, wider, from the middle, across cells, through constant and symbolic addresses, constants through every shift / rotate evaluator: registers and probed cells, valued on three initial states, equal the concrete byte-level execution of the history.',
     'C07': ' D17: the same machine interpretation (shared with C06.D16) on histories with stores that cover, split or abut earlier stores, reads between stores, one address at two widths, parallel assignments, an address register updated between store and read.',
@@ -353,8 +353,8 @@ ADDED8 = {
     'C09': ' D16: branch operands in AT&T syntax - the marks the grammar actions `argument : address` / `argument : TIMES address` leave (evaluated) and what mnemo_from_att makes of them for call / jmp / calll / jmpl / jcc / loop: a plain address is the destination, a starred address stays a 32-bit memory operand. D15 also: the AT&T text of a direct branch carries no `$`.',
     'C10': ' D13: the operand-matching loop of asm_candidates evaluated for every row with an immediate x 13 operand lists (none, too few, too many, wrong kinds): accepted or refused, no Python exception escapes.',
     'C13': ' Order groups with 9 and 17 operands (flat, nested to the left, to the right, cancelling pair kept together): the result does not depend on how many operands one node holds.',
-    'C15': ' The law family holds null selectors (a segment selector that is the constant 0) and zero leaves in every node kind.',
-    'C17': ' D8: the displacement as the decoder reads it - the operand loop of _dis evaluated on every immediate kind x operand size x boundary bytes (shared with C01.D14); the text clauses of D2 about s32 narrowing and get_im_fmt were retired for it.',
+    'C15': ' The law family holds null selectors (a segment selector that is the constant 0) and zero leaves in every node kind, and expressions next to their trivial wrappers (full-width slice, one-piece concatenation) compared in both orders.',
+    'C17': ' D8: the displacement as the decoder reads it - the operand loop of _dis evaluated on every immediate kind x operand size x boundary bytes (shared with C01.D14); the text clauses of D2 about s32 narrowing and get_im_fmt were retired for it. D9: addop interpreted on every row that declares a control-flow attribute: every decode cell the row expands to (EB beside E9) carries it.',
 }
 
 PENDING = {}
